@@ -60,6 +60,7 @@ def cases(tier, seed):
             case["well_at"] = str(rng.choice(["design-first", "design-last", "x0", "random", "last"], p=[0.2, 0.3, 0.1, 0.3, 0.1]))
             case["well_u"] = float(rng.random())
         out.append(case)
+    out += C.option_variation_slice("C04", tier, seed, modes=("det",))
     return out
 
 
